@@ -352,10 +352,21 @@ func apply(p directory.ServiceDirectoryProxy, m *model, o op, hist string) {
 	}
 }
 
-func sequential(depth int) func() {
+func sequential(depth int, populated bool) func() {
 	return func() {
 		d := startDirectory()
 		p := d.client()
+		m := initialModel()
+		hist := ""
+		if populated {
+			// start from a non-initial state: a ready as 2, b staged as 3
+			for _, o := range []op{{kind: "register", name: "a", eps: "tcp://x"}, {kind: "ready", id: 2}, {kind: "register", name: "b", eps: "tcp://x"}} {
+				apply(p, m, o, hist)
+				hist += o.String() + ";"
+			}
+			m.events = nil
+			hist += "|"
+		}
 		ev := d.watch()
 		abc := alphabet()
 		var seq []op
@@ -367,8 +378,6 @@ func sequential(depth int) func() {
 			seq = append(seq, abc[k])
 		}
 		vrt.Explore()
-		m := initialModel()
-		hist := ""
 		for _, o := range seq {
 			apply(p, m, o, hist)
 			hist += o.String() + ";"
@@ -503,6 +512,69 @@ func remoteClients() {
 		vrt.Flag("name-collision-refused")
 	}
 	vrt.Observe("registered=%d events=%v", both, ev.got)
+}
+
+// subscriberCut: the event subscriber's connection dies while a client works.
+func subscriberCut() {
+	d := startDirectory()
+	p1 := d.client()
+	ev := d.watch()
+	ev2 := d.watch() // a healthy subscriber still gets every event
+	vrt.Quiesce()
+	vrt.Explore()
+	var ops []porcupine.Operation
+	rec := func(in regIn, f func() regOut) regOut {
+		call := int64(vrt.Step())
+		o := f()
+		ops = append(ops, porcupine.Operation{ClientId: 1, Input: in, Call: call, Output: o, Return: int64(vrt.Step())})
+		return o
+	}
+	cutAt, readyAt := 0, 0
+	w1 := vrt.GoWorker("client", func() {
+		r := rec(regIn{kind: "register", name: "a"}, func() regOut {
+			id, err := p1.RegisterService(info("a", 0, "tcp://x"))
+			return regOut{id: id, ok: err == nil}
+		})
+		if !r.ok {
+			return
+		}
+		list := func() {
+			rec(regIn{kind: "services"}, func() regOut {
+				l, err := p1.Services()
+				return regOut{ok: err == nil, list: shortList(l)}
+			})
+		}
+		readyAt = vrt.Step()
+		rec(regIn{kind: "ready", id: r.id}, func() regOut { return regOut{ok: p1.ServiceReady(r.id) == nil} })
+		list()
+		// a refused ready that took effect shows here: the retry is refused too
+		rec(regIn{kind: "ready", id: r.id}, func() regOut { return regOut{ok: p1.ServiceReady(r.id) == nil} })
+		rec(regIn{kind: "unregister", id: r.id}, func() regOut { return regOut{ok: p1.UnregisterService(r.id) == nil} })
+		list()
+		rec(regIn{kind: "unregister", id: r.id}, func() regOut { return regOut{ok: p1.UnregisterService(r.id) == nil} })
+	})
+	w2 := vrt.GoWorker("cutter", func() {
+		cutAt = vrt.Step()
+		ev.conn.Raw.Close()
+	})
+	vrt.Quiesce()
+	fx.Settle(w1, w2)
+	if !porcupine.CheckOperations(dirModel, ops) {
+		desc := ""
+		for _, o := range ops {
+			desc += fmt.Sprintf("[%s @%d-%d] ", dirModel.DescribeOperation(o.Input, o.Output), o.Call, o.Return)
+		}
+		vrt.Failf("not-linearizable/subscriber-cut", "with a subscriber whose connection was cut at step %d, no sequential order of the registry explains: %s", cutAt, desc)
+	}
+	checkEvents(ev2.got)
+	ev2.wireOrder()
+	if got := strings.Join(ev2.got, " "); got != "added(2,a) removed(2,a)" {
+		vrt.Failf("events-differ/healthy-subscriber", "the healthy subscriber received [%s], expected added(2,a) removed(2,a)", got)
+	}
+	if cutAt <= readyAt {
+		vrt.Flag("cut-before-ready")
+	}
+	vrt.Observe("ops=%d cut-before-ready=%v", len(ops), cutAt <= readyAt)
 }
 
 // checkEvents: every (id) is added at most once, removed at most once, and
@@ -672,10 +744,16 @@ func pipelined() {
 func init() {
 	reg.Register(&reg.Scenario{Property: "C15", Name: "ready-then-unregister", Body: pipelined, Quick: 2, Thorough: 3,
 		Doc: "one client: register, ready, unregister of a and b without pause; events exactly once and added before removed on the subscriber's connection"})
-	reg.Register(&reg.Scenario{Property: "C15", Name: "sequential-3", Body: sequential(3), Quick: 0, Thorough: 0,
+	reg.Register(&reg.Scenario{Property: "C15", Name: "sequential-3", Body: sequential(3, false), Quick: 0, Thorough: 0,
 		Doc: "all sequences of <=3 operations of a 23-operation alphabet (register/ready/unregister/update/service/services over names a,b,'' and ids 1..4) through a remote proxy, compared step by step with the reference registry; events compared at the end"})
-	reg.Register(&reg.Scenario{Property: "C15", Name: "sequential-4", Body: sequential(4), Quick: -1, Thorough: 0,
+	reg.Register(&reg.Scenario{Property: "C15", Name: "sequential-4", Body: sequential(4, false), Quick: -1, Thorough: 0,
 		Doc: "all sequences of <=4 operations"})
+	reg.Register(&reg.Scenario{Property: "C15", Name: "sequential-from-populated-2", Body: sequential(2, true), Quick: 0, Thorough: 0,
+		Doc: "all sequences of <=2 operations (then a listing) starting from a populated registry: a ready as 2, b staged as 3"})
+	reg.Register(&reg.Scenario{Property: "C15", Name: "sequential-from-populated-3", Body: sequential(3, true), Quick: 0, Thorough: 0,
+		Doc: "all sequences of <=3 operations from the populated registry"})
+	reg.Register(&reg.Scenario{Property: "C15", Name: "subscriber-connection-cut", Body: subscriberCut, Quick: 2, Thorough: 3,
+		Doc: "a subscriber of serviceAdded/serviceRemoved has its connection cut while another client registers, readies, lists, unregisters, lists: every answer must still be explained by the registry (an operation that took effect answers success)", MustFlag: []string{"cut-before-ready"}})
 	reg.Register(&reg.Scenario{Property: "C15", Name: "two-remote-clients", Body: remoteClients, Quick: 1, Thorough: 2,
 		Doc: "two remote clients: register(a), ready, unregister, services() each; history checked with porcupine against the registry", MustFlag: []string{"both-registered-in-turn", "name-collision-refused"}})
 	reg.Register(&reg.Scenario{Property: "C15", Name: "local-vs-remote", Body: localRemote(false), Quick: 1, Thorough: 2,
